@@ -95,8 +95,9 @@ theorem good_generic_tuple {g : GCtx} (hg : GOK g) (ip : Bool) (b p : Ty) (hb : 
       intro x hx
       rw [tyAdds_generic, e1, he]
       simp [hx])
-    obtain ⟨pre, hp1, hp2⟩ := ih3 d henv'
-    refine ⟨.generic (.named "tuple") [pre], ?_, ?_⟩
+    obtain ⟨pre, hp1, hp2, _⟩ := ih3 d henv'
+    refine ⟨.generic (.named "tuple") [pre], ?_, ?_,
+      headOK_single henv (x := "tuple") (by decide) (fSimple_facts hfs).2.2 (by decide) (by decide) rfl⟩
     · rw [hex]
       simp only [parseTy, dottedName, special_tuple henv hfs]
       rw [if_neg (by simp), parseArgs_cons_type d _ _ (tyExpr_shape ip p), hp1]
@@ -171,9 +172,11 @@ theorem good_generic_callable {g : GCtx} (hg : GOK g) (ip : Bool) (b r : Ty) (hb
       rw [special_of_single henv (by decide) (adds_not_alias hg hC)]; rfl
     have hres : resolveType d "Callable" = .named "typing.Callable" := by
       rw [resolveType_imp henv hCn (by decide)]; rfl
-    obtain ⟨pre, hp1, hp2⟩ := ih3 d (henv.mono (by
+    obtain ⟨pre, hp1, hp2, _⟩ := ih3 d (henv.mono (by
       intro x hx; rw [hadds b r e1 hn e3]; simp [hx]))
-    refine ⟨.generic (.named "typing.Callable") [.any, pre], ?_, ?_⟩
+    refine ⟨.generic (.named "typing.Callable") [.any, pre], ?_, ?_,
+      headOK_typing_sub (n := "typing.Callable") (x := "Callable") (by decide) (by decide) (by decide) rfl
+        (by intro m; simp)⟩
     · rw [hex]
       simp only [parseTy, dottedName, hsp]
       rw [if_neg (by simp)]
